@@ -293,7 +293,29 @@ def check_C13(run):
                 run.violation("not-reproducible", "the search repeated after ucinewgame reports differently from the same search on a fresh engine",
                               {"script": ["uci"] + sc, "second_search": second, "fresh_engine": lb,
                                "repro": "printf 'uci\\n" + "\\n".join(sc) + "\\n' | " + rel})
-    run.cov["traces_validated_against_impl"] = len(reqs) + len(rj)
+    # through the command loop: what `print` shows (board, rights, castling files, clocks, key, FRC flag) must be the same before
+    # and after a search, however it ends (seventh seed round: `go` itself switched the position's FRC flag on inner-rook castling rights)
+    pj = []
+    for fenp in ("4k3/8/8/8/8/8/8/1R2K2R w Q - 0 1", "1r2k2r/8/8/8/8/8/8/4K3 b kq - 0 1", "4k3/8/8/8/8/8/8/R3K1R1 w GA - 0 1",
+                 "bbqnnrkr/pppppppp/8/8/8/8/PPPPPPPP/BBQNNRKR w HFhf - 0 1", "r3k2r/p1ppqpb1/bn2pnp1/3PN3/1p2P3/2N2Q1p/PPPBBPPP/R3K2R w KQkq - 0 1",
+                 "rnbqkbnr/pppp1ppp/8/4p3/4P3/8/PPPP1PPP/RNBQKBNR w KQkq e6 0 2", "7k/8/8/8/8/8/8/K7 w - - 99 80", "k7/8/8/8/8/8/5q2/7K w - - 0 1"):
+        for opt in (None, "true"):
+            for lim in ("depth 2", "nodes 200", "movetime 5"):
+                if run.tier != "thorough" and (opt, lim) in (("true", "nodes 200"), (None, "movetime 5")):
+                    continue
+                pj.append(([f"setoption name UCI_Chess960 value {opt}"] if opt else []) + ["isready", f"position fen {fenp}", "print", f"go {lim}", "print", "quit"])
+    pr = vlib.par_map(lambda sc: props_proc.run_engine(rel, sc, timeout=60), pj)
+    for sc, (out, err, rc, to) in zip(pj, pr):
+        run.note_case(tuple(sc), "print-before-after", nontrivial=True)
+        chunks = out.split("bestmove")
+        before = [l for l in chunks[0].split("\n") if l.strip() and not l.startswith(("info ", "id ", "option ", "uciok", "readyok"))]
+        after = [l for l in (chunks[1].split("\n")[1:] if len(chunks) > 1 else []) if l.strip()]
+        if to or rc != 0 or len(chunks) != 2 or not before or before != after:
+            nv += 1
+            if nv <= 25:
+                run.violation("position-changed", "what `print` shows differs before and after the search (or the engine died)",
+                              {"script": ["uci"] + sc, "before": before[-14:], "after": after[-14:], "repro": "printf 'uci\\n" + "\\n".join(sc) + "\\n' | " + rel})
+    run.cov["traces_validated_against_impl"] = len(reqs) + len(rj) + len(pj)
     run.sample({"request": reqs[0], "implementation": a1[0][:400]})
     run.cov["explanation"] = ("search_preserves_history (model: negamax and root return the history they were given) proved by induction on "
                               "fuel; determinism of the model is functionality; absence of hidden inputs in the Rust is measured by the "
@@ -659,6 +681,42 @@ def check_C12(run):
         for d in (1, 2, 3):
             for pre in ([f"position fen {f4} moves {mates[0]}"], [f"position fen {f4} moves {mates[0]}", "go depth 1"], ["position startpos moves e2e4", "go depth 2"]):
                 pj.append((f4, mates, ["isready"] + pre + [f"position fen {f4}", f"go depth {d}", "quit"]))
+    # the table primed by a search of a position two plies down the root's own tree (sixth seed round: table cutoffs allowed in PV
+    # nodes made a stored mate-in-one root, met again below the new root, tie with the real mate): `position F moves X Y`,
+    # `go depth d`, then the root F itself; X prefers captures (they are ordered before a quiet mate)
+    G2 = __import__("gen")
+    pr2 = proots[: (24 if th else 8)]
+    o1 = vlib.run_model_par([f"ucispec\t0\t{f}" for f, _ in pr2])
+    lines2 = []
+    for (f, ms), o in zip(pr2, o1):
+        if not o or o.startswith("ERROR"):
+            continue
+        strs = [it.split(":") for it in o.split(",")]
+        mate_strs = [st for trip, st in strs if tuple(int(x) for x in trip.split("-")) in ms]
+        if not mate_strs:
+            continue
+        board = G2.parse_board(f)
+        def is_cap(st):
+            return (ord(st[2]) - 97) + 8 * (int(st[3]) - 1) in board
+        others = [st for _, st in strs if st not in mate_strs]
+        others.sort(key=lambda st: (not is_cap(st), st))
+        for x in others[:3]:
+            lines2.append((f, mate_strs, x))
+    fx = vlib.run_model_par([f"posspecfen\t0\t{f}\t{x}" for f, _, x in lines2])
+    oy = vlib.run_model_par([f"ucispec\t0\t{g}" if g and not g.startswith("ERROR") else "ucispec\t0\t8/8/8/8/8/8/8/8 w - - 0 1" for g in fx])
+    for (f, mate_strs, x), g, o in zip(lines2, fx, oy):
+        if not o or o.startswith("ERROR") or not g or g.startswith("ERROR"):
+            continue
+        ys = [it.split(":")[1] for it in o.split(",")]
+        rng.shuffle(ys)
+        for y in ys[:2]:
+            for d in (3, 1):
+                pj.append((f, mate_strs, ["isready", f"position fen {f} moves {x} {y}", f"go depth {d}", f"position fen {f}", f"go depth {d}", "quit"]))
+    # corpus of minimised failures (sixth seed round, C12e): a capture ordered before the quiet mate, whose only reply leads to a
+    # position that was itself searched as a mate-in-one root
+    for f, mate, x, y in (("7k/5Kp1/8/8/8/8/1B6/2R5 w - - 0 1", "c1h1", "b2g7", "h8h7"), ("2r5/1b6/8/8/8/8/5kP1/7K b - - 0 1", "c8h8", "b7g2", "h1h2")):
+        for d in (1, 2, 3):
+            pj.append((f, [mate], ["isready", f"position fen {f} moves {x} {y}", f"go depth {d}", f"position fen {f}", f"go depth {d}", "quit"]))
     pres = vlib.par_map(lambda j: props_proc.run_engine(rel, j[2], timeout=60), pj)
     for (f4, mates, sc), (out, err, rc, to) in zip(pj, pres):
         run.note_case(tuple(sc), "command-loop-history", nontrivial=True)
@@ -702,6 +760,12 @@ def check_C19(run):
                 (v - rng.randrange(1, 400), v + rng.randrange(1, 400)), (-c["INF"], v), (v, c["INF"])]
         for a, b in wins:
             reqs.append(f"qs\t{f}\t{a}\t{b}")
+            meta.append((f, a, b, v))
+        # the ply argument is bookkeeping only (seventh seed round: a `ply >= MAX_DEPTH` stand-pat guard): entry plies around and
+        # far beyond the deepest ply a search can reach
+        for ply in rng.sample([1, 2, 31, 64, 97, 126, 127, 128, 129, 200, 255, 1000], 3):
+            a, b = rng.choice(wins[:4])
+            reqs.append(f"qs\t{f}\t{a}\t{b}\t{ply}")
             meta.append((f, a, b, v))
     impl, _ = vlib.run_impl_par(reqs)
     model = vlib.run_model_par(reqs)
